@@ -684,6 +684,33 @@ def handleSrc (toks : List String) (obs : String) : String × Bool × String :=
     | _, _, _ => ("bad-case", false, "unparsable src case")
   | _ => ("bad-case", false, "unparsable src case")
 
+/-- `L samplecov <form> k=<k> n=<n> draws=<N> seed=<s>`, observation `ok inc=<c_0,…,c_{n-1}>`.
+Spec-only (a statistical statement about the real generator, not a theorem): over plain slices random sampling is a
+uniformly random k-subset, so element i is included with probability p = min(k,n)/n; over N draws its count must be
+positive and within N/10 of p·N (N ≥ 4000: more than 12 standard deviations; for k ≥ n the count is exactly N). -/
+def handleSampleCov (ts : List String) (obs : String) : String × Bool × String :=
+  match ts with
+  | [_, k, n, draws, _] =>
+    match kvArg "k=" k |>.bind String.toNat?, kvArg "n=" n |>.bind String.toNat?, kvArg "draws=" draws |>.bind String.toNat? with
+    | some k, some n, some N =>
+      match words obs with
+      | ["ok", inc] =>
+        match kvArg "inc=" inc |>.bind (fun s => if s == "-" then some [] else parseNatList s) with
+        | some cs =>
+          let kk := min k n
+          -- |c·n − kk·N| ≤ N·n/10  and  c > 0
+          let bad := cs.zipIdx.find? (fun (c, _) =>
+            c == 0 || (if kk == n then c != N else (if c * n ≥ kk * N then c * n - kk * N else kk * N - c * n) * 10 > N * n))
+          if cs.length != n then (obs, false, "one count per element expected")
+          else match bad with
+            | none => (obs, true, "")
+            | some (c, i) => (obs, false,
+                s!"element at index {i} was included in {c} of {N} samples of size {k} out of {n}; a uniform k-subset gives about {kk * N / n}")
+        | none => (obs, false, "unparsable counts")
+      | _ => (obs, false, s!"sampling failed: {obs}")
+    | _, _, _ => ("bad-case", false, "unparsable samplecov case")
+  | _ => ("bad-case", false, "unparsable samplecov case")
+
 /-- entry point: `c` starts with the token `L` -/
 def handle (c obs : String) : String × Bool × String :=
   match words c with
@@ -691,6 +718,7 @@ def handle (c obs : String) : String × Bool × String :=
   | "L" :: "term" :: rest => handleTerm rest obs
   | "L" :: "coll" :: rest => handleColl rest obs
   | "L" :: "sample" :: rest => handleSample rest obs
+  | "L" :: "samplecov" :: rest => handleSampleCov rest obs
   | "L" :: "iter" :: rest => handleIter rest obs
   | "L" :: "src" :: rest => handleSrc rest obs
   | _ => ("bad-case", false, "unknown L case")
